@@ -53,6 +53,14 @@ void h_sjp_generate(void) {
                 if (g_pk_n >= 1 && g_pk_ret == 0) __CPROVER_assert(ret == 0, "C11 generate: key computation failure refused");
                 if (g_gr_n >= 1 && g_gr_ret == 0) __CPROVER_assert(ret == 0, "C11 generate: scalar derivation failure refused");
                 if (g_bs_n >= 1 && g_bs_ret == 0) __CPROVER_assert(ret == 0, "C11 generate: ring signing failure refused");
+                if (ret == 0) {   /* completeness of the gates: the property promises a proof for matching keys, "all blinding keys including 0";
+                                   * so a refusal must have one of the causes the function documents (any_eq: scan of the whole bounded tag list) */
+                    int any_eq = 0; size_t q, w;
+                    for (q = 0; q < GB + 4; q++) if (q < n_tags) { int e = 1; for (w = 0; w < 64; w++) if (tags[q].data[w] != outtag.data[w]) e = 0; if (e) any_eq = 1; }
+                    __CPROVER_assert(ik >= n || ok >= n || any_eq || n_used > proof.n_inputs || proof.n_inputs != n_tags
+                                     || (g_pk_n >= 1 && g_pk_ret == 0) || (g_gr_n >= 1 && g_gr_ret == 0) || (g_bs_n >= 1 && g_bs_ret == 0),
+                                     "C11 generate: refuses only for a key >= n, an input tag equal to the output, a count mismatch or a failed key/scalar/ring computation (blinding key 0 is accepted)");
+                }
                 if (ret == 1) {
                     wide sec = ok + n - ik; if (sec >= n) sec -= n;
                     __CPROVER_assert(g_bs_n >= 1 && g_bs_ret == 1 && g_pk_n >= 1 && g_gm_n >= 1, "C11 generate: success only after a successful ring signature over computed keys and message");
@@ -69,6 +77,9 @@ void h_sjp_generate(void) {
         if (ret == 1 && n_used == GB && gi == GB - 1) REACH("generate success with the largest ring of the bounded stand-in");
         if (ret == 0 && tag_eq) REACH("generate refuses an input equal to the output");
         if (ret == 0 && g_bs_n >= 1) REACH("generate signing failure");
+#ifndef VERIF_NATIVE
+        if (ret == 1 && be256(ikey) == 0) REACH("generate succeeds with an all-zero input blinding key");
+#endif
     } else {
         if (nullsel == 0) ret = secp256k1_surjectionproof_generate(&ctx, &proof, tags, n_tags, &outtag, input_index, ikey, okey);   /* unbuilt context */
         else if (nullsel == 1) ret = secp256k1_surjectionproof_generate(&ctx, NULL, tags, n_tags, &outtag, input_index, ikey, okey);
